@@ -4,9 +4,6 @@ Require Import LV.Common.Bytes LV.Gen.Gen_neg LV.Model.NegState LV.Model.NegMode
                LV.Proofs.NegFrame_C03.
 Local Open Scope Z_scope.
 
-Lemma Gen_skeleton_ok : skeleton_ok skeleton = true.
-Proof. vm_compute. reflexivity. Qed.
-
 (* ================================================================== outputs along an iteration *)
 Definition is_conn (o : out) : bool := match o with OConnect | ORawConnect => true | _ => false end.
 Definition is_wire (o : out) : bool := match o with OWire _ _ => true | _ => false end.
@@ -1680,3 +1677,7 @@ Proof.
   - intros s o I. rewrite step_eq. cbn [fst snd]. unfold ok_user. apply (user_step0 s o I).
   - unfold IU, U1, U2. cbn. repeat split; intros; discriminate.
 Qed.
+
+(* ================================================================== registration skeleton *)
+Lemma Gen_skeleton_ok : skeleton_ok skeleton = true.
+Proof. vm_compute. reflexivity. Qed.
